@@ -966,6 +966,111 @@ def r2_9(ctx, rc):
                 sg.witness(seen, late[0].id)), key=key)
     else:
         rc.ok({'order': key}, key=key)
+    # (iv) the writer creates no path the compensation does not know: every
+    # file it opens for writing, or moves something to, is the name it was
+    # given - or it removes the other path itself when it fails
+    _writer_paths(ctx, rc, N['write'], root)
+
+
+_CREATORS = {'gzip.open': 0, 'open': 0, 'io.open': 0, 'os.replace': 1,
+             'os.rename': 1, 'shutil.move': 1, 'shutil.copy': 1,
+             'shutil.copy2': 1, 'shutil.copyfile': 1, 'os.link': 1,
+             'os.mkdir': 0, 'os.makedirs': 0, 'bz2.open': 0, 'lzma.open': 0,
+             'gzip.GzipFile': 0}
+_TEMP_MAKERS = ('tempfile.mkstemp', 'tempfile.NamedTemporaryFile',
+                'tempfile.mkdtemp', 'tempfile.TemporaryDirectory')
+_REMOVERS = ('os.remove', 'os.unlink', 'os.rmdir', 'shutil.rmtree')
+
+
+def _dotted(e):
+    parts = []
+    while isinstance(e, ast.Attribute):
+        parts.append(e.attr)
+        e = e.value
+    if isinstance(e, ast.Name):
+        parts.append(e.id)
+        return '.'.join(reversed(parts))
+    return None
+
+
+def _opens_for_writing(call, name):
+    if name not in ('gzip.open', 'open', 'io.open', 'bz2.open', 'lzma.open',
+                    'gzip.GzipFile'):
+        return True
+    mode = call.args[1] if len(call.args) > 1 else None
+    for k in call.keywords:
+        if k.arg == 'mode':
+            mode = k.value
+    if mode is None:
+        return False
+    if isinstance(mode, ast.Constant) and isinstance(mode.value, str):
+        return any(c in mode.value for c in 'wax+')
+    return True
+
+
+def _writer_paths(ctx, rc, wf, root):
+    if not wf.params:
+        raise AnalysisError(wf.qualname + ' has no file-name parameter')
+    param = wf.params[0]
+    created = []      # (call node, dotted name, path expression)
+    temps = []
+    for n in ast.walk(wf.node):
+        if not isinstance(n, ast.Call):
+            continue
+        d = _dotted(n.func)
+        if d in _TEMP_MAKERS:
+            temps.append(n)
+            continue
+        if d not in _CREATORS or not _opens_for_writing(n, d):
+            continue
+        i = _CREATORS[d]
+        if len(n.args) > i:
+            created.append((n, d, n.args[i]))
+    if not created and not temps:
+        raise AnalysisError('no file-creating call found in ' + wf.qualname)
+
+    def cleaned_up(site, path):
+        """`site` lies in the body of a try of the writer whose handler or
+        finally clause removes `path`."""
+        want = ast.dump(path)
+        for t in ast.walk(wf.node):
+            if not isinstance(t, ast.Try):
+                continue
+            if not any(site is x for b in t.body for x in ast.walk(b)):
+                continue
+            clean = list(t.finalbody)
+            for h in t.handlers:
+                clean += h.body
+            for c in clean:
+                for x in ast.walk(c):
+                    if isinstance(x, ast.Call) and x.args and (
+                            _dotted(x.func) in _REMOVERS or (
+                                isinstance(x.func, ast.Attribute) and
+                                'remove' in x.func.attr)) and \
+                            ast.dump(x.args[0]) == want:
+                        return True
+        return False
+    key = '%s creates only the file it is given' % wf.qualname
+    bad = [(n, d, a) for n, d, a in created
+           if not (isinstance(a, ast.Name) and a.id == param) and
+           not cleaned_up(n, a)]
+    bad += [(n, _dotted(n.func), n) for n in temps
+            if not any(isinstance(t, ast.Try) and t.finalbody or
+                       isinstance(t, ast.With) for t in ast.walk(wf.node)
+                       if any(n is x for x in ast.walk(t)))]
+    if bad:
+        n, d, a = bad[0]
+        rc.violation(
+            'writer-creates-unknown-path | %s | %s' % (wf.qualname, d),
+            'the cache writer creates a path other than the name it was '
+            'given (%s) and does not remove it when it fails; the failure '
+            'handler of %s removes only the cache file itself, so a failed '
+            'write leaves that file behind after rollback' % (
+                ast.unparse(a)[:60], root.qualname),
+            '%s:%d' % (wf.file, n.lineno), key=key)
+    else:
+        rc.ok({'writer': key, 'creating_calls': len(created) + len(temps)},
+              key=key)
 
 
 def r2_10(ctx, rc):
